@@ -32,6 +32,16 @@ CLAIMED = {
              "block, chunk-size line, trailer block); TLC judges every record against specs/HttpLimitsTrace.tla.",
         design_ref="DESIGN.md 4 C12, 9",
         technique="TLA+ model checking of limit/buffer invariants + TLC-validated boundary and endless-stream records from the real parser"),
+    "C07": dict(
+        text="TLC checks specs/BodyIO.tla (Body.read/readline/readlines/iteration over a block reader) for every program of "
+             "<= MaxCalls calls with sizes {None, 0, 1, Block, Block+1, big} over every body of <= MaxBody symbols against "
+             "io.BytesIO semantics (action properties PieceMatchesFileRef, EofForever; invariants NoLossNoDup, "
+             "NeverReadsPastBody); TLC -simulate behaviours are replayed on the real wsgi.input; seeded real-scale programs "
+             "(sizes around 1024/8192, Content-Length and chunked framings, 1-byte chunks, chunk boundaries at block "
+             "boundaries, random segmentations, pipelined follower) are judged by TLC against specs/BodyTrace.tla, "
+             "including the offset at which the next request is parsed.",
+        design_ref="DESIGN.md 4 C07, 9",
+        technique="TLA+ model checking of the wsgi.input algorithm vs. file semantics + TLC trace validation of real call sequences"),
 }
 
 NOT_YET = {
